@@ -101,3 +101,67 @@ theorem sortByVal_canon (m : AMap) (cols : List Column) (h : m.Perm (canonIdx co
   exact zipIdx_snd_inj _ 0 a b ha' hb (Nat.le_antisymm hab hba)
 
 end Sqlize
+
+namespace Sqlize
+
+-- ---------------------------------------------------------------------------------------------------------------
+-- Arrange is the identity under the invariant
+
+theorem findIdx_name (cols : List Column) (hn : (cols.map (·.name)).Nodup) (i : Nat) (hi : i < cols.length) :
+    cols.findIdx? (fun c => c.name == cols[i].name) = some i := by
+  rw [List.findIdx?_eq_some_iff_getElem]
+  refine ⟨hi, by simp, ?_⟩
+  intro j hji
+  have hj : j < cols.length := Nat.lt_trans hji hi
+  intro heq
+  have heq' : cols[j].name = cols[i].name := by simpa using heq
+  have h1 : (cols.map (·.name))[j]'(by simpa using hj) = (cols.map (·.name))[i]'(by simpa using hi) := by
+    simpa using heq'
+  have := (List.getElem_inj hn).mp h1
+  omega
+
+/-- the loop of `Arrange` over the entries `name ↦ index` for the indices `i, i+1, …` changes nothing -/
+theorem arrangeGo_canon (cols : List Column) (hn : (cols.map (·.name)).Nodup) :
+    ∀ (k : Nat) (i : Nat), i + k = cols.length →
+      Table.arrangeGo cols i (((cols.drop i).map (·.name)).zipIdx i) = .ok cols := by
+  intro k
+  induction k with
+  | zero =>
+    intro i hi
+    have : cols.drop i = [] := List.drop_eq_nil_iff.mpr (by omega)
+    simp [this, Table.arrangeGo, pure, Except.pure]
+  | succ k ih =>
+    intro i hi
+    have hlt : i < cols.length := by omega
+    have hdrop : cols.drop i = cols[i] :: cols.drop (i + 1) := by
+      rw [List.drop_eq_getElem_cons hlt]
+    rw [hdrop]
+    simp only [List.map_cons, List.zipIdx_cons, Table.arrangeGo]
+    rw [findIdx_name cols hn i hlt]
+    have hg : getIdx "Arrange" cols i = .ok cols[i] := by
+      simp [getIdx, List.getElem?_eq_getElem hlt, pure, Except.pure]
+    simp only [hg, bind, Except.bind]
+    have hset : (cols.set i cols[i]).set i cols[i] = cols := by
+      simp
+    rw [hset]
+    exact ih (i + 1) (by omega)
+
+theorem arrange_id (t : Table) (h : t.ColInv) : t.arrange = .ok t := by
+  obtain ⟨hn, hp⟩ := h
+  unfold Table.arrange
+  rw [sortByVal_canon t.colIdx t.cols hp]
+  have := arrangeGo_canon t.cols hn t.cols.length 0 (by omega)
+  simp only [List.drop_zero] at this
+  unfold canonIdx
+  rw [this]
+  rfl
+
+/-- every table satisfies the column invariant -/
+def Migration.ColInv (m : Migration) : Prop := ∀ t ∈ m.tables, t.ColInv
+
+/-- `Inv` ⇒ arrange-stable: with C08.calls_pure, every output call sequence on a state whose position maps agree with
+    the slices is pure, whatever order Go iterates the maps in -/
+theorem stable_of_inv (m : Migration) (h : m.ColInv) : m.Stable :=
+  fun t ht _ => arrange_id t (h t ht)
+
+end Sqlize
